@@ -479,6 +479,12 @@ func (c *specCtx) quant(x *SQuant) Val {
 		default:
 			t := c.lookupType(v.Type)
 			if t == nil {
+				if strings.HasPrefix(v.Type, "set[") || strings.HasPrefix(v.Type, "map[") || v.Type == "ref" {
+					val = Val{S: name, Sort: vc.eng.specSort(v.Type)}
+					decls = append(decls, fmt.Sprintf("(%s %s)", name, val.Sort))
+					c.bound[v.Name] = val
+					continue
+				}
 				return c.fail("unknown type %q in quantifier", v.Type)
 			}
 			val = vc.mk(name, t)
@@ -490,6 +496,14 @@ func (c *specCtx) quant(x *SQuant) Val {
 		c.bound[v.Name] = val
 	}
 	body := c.eval(x.Body)
+	var pats []string
+	for _, grp := range x.Triggers {
+		var ts []string
+		for _, te := range grp {
+			ts = append(ts, c.eval(te).S)
+		}
+		pats = append(pats, ":pattern ("+strings.Join(ts, " ")+")")
+	}
 	for _, v := range x.Vars {
 		if old, ok := saved[v.Name]; ok {
 			c.bound[v.Name] = old
@@ -511,6 +525,9 @@ func (c *specCtx) quant(x *SQuant) Val {
 	q := "exists"
 	if x.Forall {
 		q = "forall"
+	}
+	if len(pats) > 0 {
+		return c.boolV(fmt.Sprintf("(%s (%s) (! %s %s))", q, strings.Join(decls, " "), b, strings.Join(pats, " ")))
 	}
 	return c.boolV(fmt.Sprintf("(%s (%s) %s)", q, strings.Join(decls, " "), b))
 }
@@ -618,6 +635,29 @@ func (c *specCtx) call(x *SCall) Val {
 			}
 		}
 		return c.fail("%s on %s", x.Fun, m.Sort)
+	case "dom":
+		m := c.eval(x.Args[0])
+		if m.Ty != nil {
+			if mt, ok := m.Ty.Underlying().(*types.Map); ok {
+				return Val{S: fmt.Sprintf("(dom_%s %s)", m.Sort, m.S), Sort: "(Array " + vc.sortOf(mt.Key()) + " Bool)"}
+			}
+		}
+		return c.fail("dom of %s", m.Sort)
+	case "vals":
+		m := c.eval(x.Args[0])
+		if m.Ty != nil {
+			if mt, ok := m.Ty.Underlying().(*types.Map); ok {
+				return Val{S: fmt.Sprintf("(val_%s %s)", m.Sort, m.S), Sort: "(Array " + vc.sortOf(mt.Key()) + " " + vc.sortOf(mt.Elem()) + ")"}
+			}
+		}
+		return c.fail("vals of %s", m.Sort)
+	case "emptyset":
+		t := c.lookupType(x.Args[0].(*SIdent).Name)
+		if t == nil {
+			return c.fail("emptyset: unknown type")
+		}
+		ks := vc.sortOf(t)
+		return Val{S: fmt.Sprintf("((as const (Array %s Bool)) false)", ks), Sort: "(Array " + ks + " Bool)"}
 	case "origin":
 		v := c.eval(x.Args[0])
 		_, _, org := vc.sliceParts(v)
